@@ -95,7 +95,13 @@ fn hostile_frame(ch: &mut Chooser, d: &Driver, port: usize) -> (bool, Vec<u8>, &
             what = "margin_tlv";
             let body_len = t.body_len();
             let room = 1024usize.saturating_sub(34 + body_len);
-            let wire = match ch.choose(S_WORK, 8) {
+            let wire = match ch.choose(S_WORK, 10) {
+                8 | 9 => {
+                    // the room left next to the port's own PATH_TRACE TLV (path of 0..2 received hops)
+                    let pt = 4 + 8 * (1 + ch.choose(S_WORK, 3) as usize);
+                    let r = 1024usize - 64 - pt;
+                    *ch.pick(S_WORK, &[r, r - 2, r + 2, r + 4, r - 4])
+                }
                 0 => room,
                 1 => room - 2,
                 2 => room + 2,
